@@ -11,8 +11,6 @@ CONSTANTS MaxCoop            \* longest cooperative solution enumerated exhausti
 VARIABLE sol
 vars == <<sol>>
 
-DateTokens == {"default", "plain", "micro", "midnight", "leap"}
-ProcTokens == {"plain", "xml", "unicode", "spaces", "empty"}
 ScenTokens == {"T", "S", "I", "coop", "bare", "barecfg", "v2018b"}
 StepPatterns == {<<0>>, <<0, 1>>, <<0, 1, 2>>, <<3>>, <<3, 4, 5>>, <<0, 2, 5>>}
 
@@ -50,6 +48,8 @@ KS1 == <<DefPP(<<"KS", "KS">>, 7)>>
 CMetaVal == {Sol(KS1, c, "plain", "plain", "T") : c \in CtClasses}
             \cup {Sol(KS1, "ord", d, "plain", "T") : d \in DateTokens}
             \cup {Sol(KS1, "ord", "plain", p, "T") : p \in ProcTokens}
+            \cup {Sol(KS1, t[1], t[2], t[3], "T") : t \in {"None", "tiny9"} \X {"None", "micro"} \X ProcTokens}
+            \cup {Sol(<<DefPP(km, 7)>>, "ord", "plain", p, "T") : km \in KindModels, p \in {"tm", "xml", "unicode"}}
             \cup {Sol(KS1, "ord", "plain", "plain", sc) : sc \in ScenTokens}
 (* cooperative: every sequence of 2..MaxCoop kinds (in and out of schema order, kinds may repeat), ids up and down *)
 IdPatterns(n) == IF n = 2 THEN {<<10, 20>>, <<20, 10>>} ELSE {[i \in 1..n |-> IF i = 1 THEN 30 ELSE 10 * (i - 1)]}
